@@ -26,7 +26,7 @@
                                        (F7-svd, `C20_svd_not_sound`) — only `Counted`, rank, answered ⇒ resolves survive
 
   Hypotheses that remain (`Net.NetHyp alg np`, asked of the problem of EVERY configuration the loop can visit):
-  `RowsOK` (= `NoAlias`), `m0 ≠ 0`, the covariance matrix invertible, the algorithm's rank decisions unambiguous at both
+  `RowsOK` (column indices in range; a theorem for `project_equations()` output since round 12: `C01_pe_rowsOK`), `m0 ≠ 0`, the covariance matrix invertible, the algorithm's rank decisions unambiguous at both
   stages.  `prepare` accepted, `(dimsN np).sum = np.m`, `min_x_` distinct and in range, `hdim`, `PEWF` are theorems.
 -/
 import Gama.Lemmas.C20ObsNet
